@@ -107,6 +107,15 @@ FLAVOURS[15] = ("This round, write a small FEATURE pull request (8-60 changed li
                 "next - must need something specific to manifest, and must differ in mechanism from the earlier changes listed "
                 "above.")
 
+FLAVOURS[16] = ("This round, write a CLEAN-UP pull request that REMOVES or SIMPLIFIES code (5-40 changed lines, net deletion, "
+                "'commit_message' in meta.json): a branch, special case, guard, fallback, table entry, visitor method, grammar "
+                "alternative, look-ahead, normalisation step, default argument, 'redundant' re-initialisation, duplicate pass or "
+                "defensive copy that looks dead, redundant or over-cautious to someone reading the code and running the tests - "
+                "coverage shows it is never hit by the suite, a linter flags it, two branches look identical, a variable is assigned "
+                "twice - but that is in fact needed for an unusual input, option value or sequence of calls. The break of the "
+                "property must come from the removed behaviour, must need something specific to manifest, and must differ in "
+                "mechanism from the earlier changes listed above.")
+
 
 def main():
     rnd, outdir = int(sys.argv[1]), sys.argv[2]
